@@ -23,7 +23,7 @@ CHECKS = {
             "space; the evidence lists which edit kinds actually required invalidation.",
             "the twin is modelx itself (detects cache-induced differences only); battery arguments 0..1; dangling object references are not generated"),
     "C03": ("exploration",
-            "exhaustive enumeration of all ordered-base DAGs on <=4 spaces x definer subsets x construction orders, plus Hypothesis-generated member/base edit histories, against derivation from scratch with an independent C3",
+            "exhaustive enumeration of all ordered-base DAGs on <=4 spaces x definer subsets x construction orders and of single-base removal/re-addition on edge-by-edge built DAGs of 4-5 spaces, plus Hypothesis-generated member/base edit histories, against derivation from scratch with an independent C3",
             "Every ordered-base inheritance DAG on up to four spaces is built in three construction orders with every non-empty "
             "definer subset, and generated edit histories (define/redefine/delete/rename/override/un-override, add/remove bases) "
             "are replayed; after each step membership, derived flags, formula sources, reference values, bases and evaluated "
@@ -80,7 +80,10 @@ CHECKS = {
             "definer, of an ancestor, nested ItemSpace), with the reference set before or after the deriver exists, is built; the "
             "binding and mode in the deriving space are compared by identity with the rule of the statement, documented rejections "
             "must be clean, and the rule must hold again after re-assignment, base removal/re-addition, override removal in a chain, "
-            "removal of a first base, renaming and write/read. The grid is exhaustive for this tree; other trees are not explored.",
+            "removal of a first base, renaming and write/read. The grid is repeated in worlds where the outside target is a "
+            "sibling whose name starts with the definer's name and where the deriving space has the definer's own name (nested "
+            "under another parent, or at top level), and with an ItemSpace of a static sub as deriver. Exhaustive for these "
+            "trees; other trees are not explored.",
             "static derivation is asserted only for targets 'the definer itself or its cells'; the tree shape is fixed"),
     "C11": ("exploration",
             "stateful property-based testing (Hypothesis): histories mixing valid edits with a catalogue of invalid requests; invariant 'description before == after' on every rejection and well-formedness (acyclic, C3, valid names) after every acceptance",
@@ -207,7 +210,10 @@ def main():
         }],
         "checks": checks,
         "not_applicable": na,
-        "notes": "All checks: /venv/bin/python check.py <id> --tier quick|thorough; VERIF_SEED selects the seed; exit 2 = harness error.",
+        "notes": "All checks: /venv/bin/python check.py <id> --tier quick|thorough; VERIF_SEED selects the seed; exit 2 = harness error. "
+                 "The thorough tier of every check with a Hypothesis strategy additionally runs 8 coverage-guided shards "
+                 "(atheris/libFuzzer mutating the byte stream the same strategy decodes, modelx instrumented, same oracle); "
+                 "seeded changes and what catches them: seeded/SUMMARY.md; findings: known_findings.json.",
     }
     path = os.path.join(HERE, "MANIFEST.json")
     with open(path, "w") as f:
